@@ -32,8 +32,8 @@ TABLE = {
             "token prefix property directly.",
             "Inputs on which syn's own printer is not the identity (empty `<>`, `T:` without bounds) are excluded by the decidable, per-case checked hypothesis synStable.",
             "Lean 4 theorem (token-level append-only + splitter concatenation lemma) + real-output prefix check", "5/C02"),
-    "C03": ("Lean theorem T_C03 (under the decidable validity hypotheses identsOk and genericsOk): every generated method - trait declaration and delegating definition - has the source function's parameter types after the dependency token for token, the receiver the dependency parameter prescribes, the source's lifetime parameters, qualifiers, variadic, asyncness and return type; every where-predicate that is not a bound on the dependency's own type parameter stays in scope on the method; the trait declares exactly the lifted type/const parameters of the source functions (liftedParams) and the impl names them in order. The rustc half (the expansion compiles, incl. borrow checking of results borrowed from the dependency or arguments) is sampled by the compile-and-run probe p_c03_sigs.",
-            "partial: 'compiles' is rustc's judgement. Known finding C03.dupgeneric (also a kernel-checked witness theorem) tolerated only inside its class.",
+    "C03": ("Lean theorem T_C03 (under the decidable validity hypotheses identsOk and genericsOk): every generated method - trait declaration and delegating definition - has the source function's parameter types after the dependency token for token, the receiver the dependency parameter prescribes, the source's lifetime parameters, qualifiers, variadic, asyncness and return type; every where-predicate that is not a bound on the dependency's own type parameter stays in scope on the method; the trait declares exactly the lifted type/const parameters of the source functions (liftedParams) and the impl names them in order; T_C03_full / T_C03_closed (hypothesis lifetimesOk): the where clause of the generated trait names no lifetime that is not in scope there (a predicate that talks about a lifetime parameter of the function stays on the method only), and the impl adds nothing to it but the predicate with the dependency bounds. The rustc half (the expansion compiles, incl. borrow checking of results borrowed from the dependency or arguments) is sampled by the compile-and-run probe p_c03_sigs.",
+            "partial: 'compiles' is rustc's judgement. Known findings C03.dupgeneric and C03.ltbound (each also a kernel-checked witness theorem) tolerated only inside their classes.",
             'Lean 4 theorem on call-type identity and generic scoping + differential correspondence + rustc compile-and-run probe', "5/C03"),
     "C04": ("Lean theorem T_C04: the generated impl's own type parameter carries exactly Sync [+ Send iff some function takes the "
             "dependency by value] + 'static, its `Self:` predicate carries exactly the multiset of bounds declared on the dependency "
